@@ -279,6 +279,75 @@ func main() {
 					t.Line("lazy", true, "%s %d => %s", lazy, v, strings.Join(parts, " "))
 				}()
 			}
+			// a rollback over at least two versions on the same DB, then a cold reopen of every retained version and a
+			// replay of the rolled-back blocks (compared with the run above, which never rolled back)
+			if mountAt < 0 && nb >= 3 {
+				target := int64(1 + r.Intn(nb-2))
+				t.Line("base", false, "base => ok")
+				t.Line("target", false, "target %d => ok", target)
+				fresh := msdrive.New(db, spec, int64(1+r.Intn(30)))
+				db.Start()
+				var rerr error
+				func() {
+					defer func() {
+						if e := recover(); e != nil {
+							rerr = fmt.Errorf("PANIC %v", e)
+						}
+					}()
+					rerr = fresh.Store.RollbackVersion(target)
+				}()
+				evs := db.Stop()
+				if rerr != nil {
+					t.Line("rollback", true, "rollback %d => ERR %s %s", target, errStr(rerr), renderEvents(evs))
+				} else {
+					t.Line("rollback", true, "rollback %d => OK %s", target, renderEvents(evs))
+				}
+				if *backend == "goleveldb" {
+					inner.Close()
+					inner = openInner()
+					db = faultdb.Wrap(inner)
+				}
+				ms3, err := msdrive.Open(db, spec, int64(1+r.Intn(30)))
+				if err != nil {
+					t.Line("reopen", true, "reopen latest => ERR %s", errStr(err))
+				} else {
+					t.Line("reopen", true, "reopen latest => %s", msdrive.CID(ms3.Store.LastCommitID()))
+					storeStates(t, "rstate", "latest", ms3, nil)
+					for v := int64(1); v <= int64(nb); v++ {
+						func() {
+							defer func() {
+								if e := recover(); e != nil {
+									t.Line("reopen", true, "reopen %d => PANIC %s", v, errStr(e))
+								}
+							}()
+							m4, err := msdrive.OpenAt(db, spec, int64(1+r.Intn(30)), v)
+							if err != nil {
+								t.Line("reopen", true, "reopen %d => ERR %s", v, errStr(err))
+								return
+							}
+							t.Line("reopen", true, "reopen %d => %s", v, msdrive.CID(m4.Store.LastCommitID()))
+							storeStates(t, "rstate", fmt.Sprint(v), m4, nil)
+						}()
+					}
+					o2 := snaps[target-1].clone()
+					for bi := int(target); bi < nb; bi++ {
+						b := blocks[bi]
+						applyRoute(ms3, b, (bi+len(b))%3)
+						for _, w := range b {
+							if w.del {
+								delete(o2[w.store], string(w.k))
+							} else {
+								o2[w.store][string(w.k)] = w.v
+							}
+						}
+						db.Start()
+						id := ms3.Store.Commit()
+						evs := db.Stop()
+						t.Line("commit", true, "commit %d => %s %s", bi, msdrive.CID(id), renderEvents(evs))
+						storeStates(t, "state", fmt.Sprint(id.Version), ms3, o2)
+					}
+				}
+			}
 			inner.Close()
 		}()
 		// never-persisted replica: same history, separate MemDB, never reopened (impossible when a substore is mounted midway)
